@@ -644,7 +644,7 @@ class HierarchyElement(DiagLayer):
         if not isinstance(val, str):
             return None
 
-        m = re.search("TX_DL *= *([0-9]*)", val)
+        m = re.search("TX_DL *= *([0-9]+)", val)
         if m:
             return int(m.group(1))
 
